@@ -426,9 +426,10 @@ class C17(PropBase):
                             got = [g[2], g[3], "C:" + ",".join(sorted(x for x in g[4][2:].split(",") if x))]
                             if got != want:
                                 out.append({"case": c, "profile": prof, "found_input": False,
-                                            "what": "fs correspondence: the flow model predicts %s (returned by HttpSymbolSupplier::locate_file per kind | by "
-                                                    "SimpleSymbolSupplier::locate_file on a populated directory | files created under the cache), the code did %s"
-                                                    % ("|".join(want), "|".join(got))})
+                                            # (a constant 60-character head: the runner lists one violation per distinct head)
+                                            "what": "fs correspondence: consumers differ from the flow model (Gen/C17Flow.v): predicted %s (returned by "
+                                                    "HttpSymbolSupplier::locate_file per kind | by SimpleSymbolSupplier::locate_file on a populated directory | "
+                                                    "files created under the cache), the code did %s" % ("|".join(want), "|".join(got))})
         ctx["info"]["fs_probe_cases"] = len(cases) * len(self.profiles)
         ctx["info"]["fs_probe_paths_returned"] = stats["returned"]
         ctx["info"]["fs_probe_files_created"] = stats["created"]
@@ -496,7 +497,9 @@ class C17(PropBase):
         ctx["info"]["url_probe_cases"] = len(cases) * len(self.profiles)
         ctx["info"]["url_probe_requests_observed"] = n_req
         ctx["info"]["url_probe_predictions_compared"] = n_cmp
-        return out + self.fs_probe(ctx)
+        out += self.fs_probe(ctx)
+        # failing inputs first (the runner prints the first few violations)
+        return sorted(out, key=lambda v: 0 if v.get("found_input") else 1)
 
     def nontrivial(self, case, ans):
         return any(f not in ("N", "P") for f in ans.split("|", 1)[0].split(";"))
